@@ -38,6 +38,10 @@ DigVal(c) == IF IsDigit(c) THEN c - 48 ELSE Lower(c) - 87
 IsRadixDig(c, r) == (IsDigit(c) \/ IsAlpha(c)) /\ DigVal(c) < r
 RECURSIVE RadixVal(_, _, _, _, _)
 RadixVal(inp, k, e, r, acc) == IF k >= e THEN acc ELSE RadixVal(inp, k + 1, e, r, MulAdd(acc, r, DigVal(inp[k])))
+TwoTo64 == <<1, 8, 4, 4, 6, 7, 4, 4, 0, 7, 3, 7, 0, 9, 5, 5, 1, 6, 1, 6>>
+RECURSIVE LexLessFrom(_, _, _)
+LexLessFrom(a, b, i) == IF i > Len(a) THEN FALSE ELSE IF a[i] # b[i] THEN a[i] < b[i] ELSE LexLessFrom(a, b, i + 1)
+LexLess(a, b) == LexLessFrom(a, b, 1)              \* a < b for digit sequences of EQUAL length
 
 (* ---------------- the scanner ---------------- *)
 (* all operators take the input `s' and a position k (1-based); n = Len(s) *)
@@ -125,9 +129,10 @@ Datum(s, k) ==
             LET r == CASE Upper(d) = 72 -> 16 [] Upper(d) = 81 -> 8 [] OTHER -> 2
                 e == RunEnd(s, k + 2, CASE r = 16 -> "r16" [] r = 8 -> "r8" [] OTHER -> "r2")
             IN IF e = k + 2 THEN [r |-> M("nondecimal-without-digits"), next |-> e]
-               ELSE IF (e - (k + 2)) * (IF r = 16 THEN 4 ELSE IF r = 8 THEN 3 ELSE 1) > 63
-                    THEN [r |-> Unspec("nondecimal-size-limit"), next |-> e]
-               ELSE [r |-> W(<<El("hex", k, 0, 0, 0, RadixVal(s, k + 2, e, r, <<>>))>>), next |-> e]   \* value as decimal digits
+               ELSE IF e - (k + 2) > 80 THEN [r |-> Unspec("nondecimal-size-limit"), next |-> e]
+               ELSE LET v == RadixVal(s, k + 2, e, r, <<>>) IN                     \* value as decimal digits
+                    IF Len(v) > 20 \/ (Len(v) = 20 /\ ~LexLess(v, TwoTo64)) THEN [r |-> Unspec("nondecimal-size-limit"), next |-> e]   \* needs more than 64 bits
+                    ELSE [r |-> W(<<El("hex", k, 0, 0, 0, v)>>), next |-> e]
         ELSE [r |-> M("block-malformed"), next |-> k + 1]
     ELSE IF c = 34 \/ c = 39 THEN
         LET e == StrEnd(s, k + 1, c) IN
